@@ -132,6 +132,8 @@ int main(int argc, char **argv) {
         else if (a == "--stop-on-first") opt.stopOnFirst = true;
         else if (a == "--no-dedup") opt.dedupFailures = 0;
         else if (a == "--no-slice") opt.noSlice = true;
+        else if (a == "--profile") opt.profile = true;
+        else if (a == "--dump-unknown") opt.dumpDir = nx();
         else if (a == "--fix") { std::string kv = nx(); size_t e = kv.find('='); if (e != std::string::npos) opt.fixedChoice[kv.substr(0, e)] = std::stoull(kv.substr(e + 1)); }
         else if (a == "--no-replace") opt.noReplace.insert(nx());
         else if (a == "--known") { std::string l = nx(); size_t p0 = 0; while (p0 <= l.size()) { size_t c = l.find(',', p0); if (c == std::string::npos) c = l.size(); if (c > p0) opt.knownIds.insert(l.substr(p0, c - p0)); p0 = c + 1; } }
@@ -170,7 +172,7 @@ int main(int argc, char **argv) {
       << ",\"paths_budget\":" << ex.pathsBudget << ",\"paths_pending\":" << ex.work.size() << ",\"forks\":" << ex.forks << ",\n";
     o << " \"paths_with_symbolic_assert\":" << ex.pathsWithSymAssert << ",\"asserts_checked\":" << ex.assertsChecked << ",\"asserts_symbolic\":" << ex.assertsSymbolic << ",\n";
     o << " \"instructions\":" << ex.totalInsns << ",\n";
-    o << " \"queries\":{\"total\":" << ex.qTotal << ",\"sat\":" << ex.qSat << ",\"unsat\":" << ex.qUnsat << ",\"unknown\":" << ex.qUnknown << ",\"decided_from_path_facts\":" << ex.qCached << ",\"fp_bitblast\":" << ex.qHeavy << ",\"slowest_s\":" << ex.slowestQ << "},\"solver_s\":" << ex.solverS << ",\"wall_s\":" << ex.elapsed() << ",\n";
+    o << " \"queries\":{\"total\":" << ex.qTotal << ",\"sat\":" << ex.qSat << ",\"unsat\":" << ex.qUnsat << ",\"unknown\":" << ex.qUnknown << ",\"decided_from_path_facts\":" << ex.qCached << ",\"fp_bitblast\":" << ex.qHeavy << ",\"decided_by\":{\"bitblast_sat\":" << ex.stratWins[0] << ",\"qffpbv\":" << ex.stratWins[1] << ",\"smt\":" << ex.stratWins[2] << "}" << ",\"slowest_s\":" << ex.slowestQ << "},\"solver_s\":" << ex.solverS << ",\"wall_s\":" << ex.elapsed() << ",\n";
     o << " \"reach\":{";
     { bool first = true; for (auto &kv : ex.reachCount) { if (!first) o << ","; first = false; o << "\"" << jesc(kv.first) << "\":" << kv.second; } }
     o << "},\n \"reach_missing\":[";
@@ -219,6 +221,12 @@ int main(int argc, char **argv) {
     }
     o << "]\n}\n";
     if (outPath.empty()) std::cout << o.str(); else { std::ofstream out(outPath); out << o.str(); }
+    if (opt.profile) {
+        std::vector<std::pair<double, std::string>> pv;
+        for (auto &kv : ex.profile) pv.push_back({kv.second.second, kv.first + "  n=" + std::to_string(kv.second.first)});
+        std::sort(pv.rbegin(), pv.rend());
+        for (size_t i = 0; i < pv.size() && i < 40; i++) errs() << "  " << pv[i].first << "s  " << pv[i].second << "\n";
+    }
     if (!fatal.empty()) errs() << "nixsym: " << fatal << "\n";
     if (ex.inconclusive) { errs() << "nixsym: INCONCLUSIVE: " << ex.inconclusiveWhy << "\n"; return 2; }
     if (!ex.failures.empty()) return 1;
